@@ -142,12 +142,32 @@ func (e *Env) Run(idx int, c Case) (out Outcome) {
 	}
 	var blob *cose.Sign1[protocol.To1d, []byte]
 	if c.To1d {
-		if _, err := w.RunTO0(ctx, guid, 3600, nil); err != nil {
+		// byte fidelity (C07): the blob the device obtains is the one the owner registered
+		var registered, received *cb.Node
+		cap0 := &world.Hook{Request: func(x *world.Exchange) bool {
+			if x.ReqType == 22 {
+				if n, err := cb.DecodeAll(x.ReqBody); err == nil && len(n.Kids) == 2 {
+					registered = n.Kids[1]
+				}
+			}
+			return false
+		}}
+		cap1 := &world.Hook{Response: func(x *world.Exchange) bool {
+			if x.RespType == 33 {
+				received, _ = cb.DecodeAll(x.RespBody)
+			}
+			return false
+		}}
+		if _, err := w.RunTO0(ctx, guid, 3600, cap0); err != nil {
 			out.Skipped = "TO0: " + err.Error()
 			return
 		}
-		if blob, err = w.RunTO1(ctx, e.Dev, nil); err != nil {
+		if blob, err = w.RunTO1(ctx, e.Dev, cap1); err != nil {
 			out.Skipped = "TO1: " + err.Error()
+			return
+		}
+		if registered == nil || received == nil || !cb.Equal(registered, received) {
+			out.Mismatch = "rendezvous blob received by the device differs from the one the owner registered"
 			return
 		}
 		if blob, err = e.forgeBlob(c, blob); err != nil {
